@@ -9,6 +9,8 @@ CLAIMED = {
          "trusted: time.Time.Unix extern. Not decided: the 24-character date form round trip (lives in time/fmt/strconv); only its arithmetic lemma is proved."),
  "C08": ("proof", "all 20 Bit64 iterators, Set/Unset/Len/NLen/Full/Reverse/And/Or, getNAs*/GetN*, init's table, and the Bit1024 layer (Set/Unset I32/I16, Len, NLen, Reverse, OrThenReverse, And, Or, Equal, 8 chained iterators, GetN*) against rank-based set specifications; popcount lemmas proved from the bit-level definition; result independent of the sparse threshold (atomic load returns any value)", "4/C08",
          "trusted: math/bits externs (OnesCount64=pc, TrailingZeros64, Len64 documented behaviour), constant-table rule for u64Tab, GetN* require n>=0 (make panics otherwise)."),
+ "C09": ("proof", "Marshal (lengths, dense layout), Unmarshal (never panics for any byte string, error cases, dense layout, sparse path exact: accepted iff every pair is in [0,1023], resulting words = old | set denoted by the pairs), BigU32 / U32BitTip construction from integers, SetI64/SetU32 acceptance, and their ascending/descending iteration back to Start*1024+member, all for every input", "4/C09",
+         "trusted: encoding/binary little-endian externs, the recursive definition of the denoted set acc (definitional axioms), C08 contracts at call sites. Not decided: decode(encode(b)) == b as a single lemma (both directions are specified and proved separately; the sparse Marshal byte content is delegated to GetNAsI16's contract only for its length), list forms BigU32s/U32BitTips."),
  "C14": ("proof", "lane index contract of NormalizeSlotIndex proved for every int (64-bit vectors); the other clauses of C14 are not decided by this check", "4/C14",
          "Not decided: execution order/non-overlap in time, result routing, Stop semantics (goroutines/channels are outside the verified subset so far)."),
  "C17": ("proof", "NewReMap establishes a strictly ascending partition ending at MaxUint64; SearchUInt64s/SearchIndex return the unique shard in range; SimpleIndex is value mod shards for every integer width (sign extension included) and in range for every key", "4/C17",
@@ -20,7 +22,6 @@ NOT_YET = {
  "C03": "vendored B-tree is recursive copy-on-write heap code outside govc's subset; wrapper contracts + bounded stand-in not built yet",
  "C04": "LRU contracts (list/map bijection, SUM lemmas) not built yet",
  "C05": "TTL cache contracts not built yet",
- "C09": "serialization / BigU32 contracts not built yet",
  "C10": "bytex contracts (bytes.Buffer extern model) not built yet",
  "C11": "tex.Buffer contracts not built yet",
  "C12": "queue contracts not built yet",
